@@ -15,13 +15,16 @@ ID = "C04"
 RULE = ("exhaustive: every set of distinct strict orders over 3 alternatives (2^6 subsets) and over 4 alternatives "
         "with n <= 4 (quick) / n <= 5 (thorough) distinct orders, each in two storage orders (sorted, reversed) plus "
         "one random shuffle; random: swap-walk single-crossing sequences (m <= 6, n <= 7) shuffled, with and without "
-        "one off-sequence order, uniformly random sets of orders; large planted single-crossing profiles (m <= 12, "
+        "one off-sequence order, 'stars' (a sequence plus two or three adjacent-swap neighbours of one member, m <= 8, "
+        "n <= 15: score ties), uniformly random sets of orders (m <= 6, n <= 7); large planted single-crossing profiles (m <= 12, "
         "n <= 40) and large negatives (planted profile + embedded refuted core). "
         "non-trivial = at least 3 distinct orders")
 EXHAUSTIVE = {"quick": "all subsets of the 6 orders over 3 alternatives; all sets of <= 4 distinct orders over 4 "
-                       "alternatives; x {sorted, reversed, shuffled} storage order",
+                       "alternatives; x {sorted, reversed, shuffled} storage order; all sets of <= 2 orders over 5 "
+                       "alternatives in both storage orders",
               "thorough": "all subsets of the 6 orders over 3 alternatives; all sets of <= 5 distinct orders over 4 "
-                          "alternatives; x {sorted, reversed, shuffled} storage order"}
+                          "alternatives; x {sorted, reversed, shuffled} storage order; all sets of <= 2 orders over "
+                          "5 alternatives in both storage orders"}
 TRUSTED = ["(R) not mirrored: the Kendall-tau scoring / sort / bucket strategy of is_single_crossing and the set "
            "manipulation of is_single_crossing_conflict_sets; they are compared with the proved references "
            "c04.decide (n <= 7) and c04.cdecide (all generated sizes) and the returned sequence is checked by the "
@@ -58,6 +61,24 @@ def swap_walk(rng, alts, n, p_stay=0.0):
         if cur != seq[-1]:
             seq.append(list(cur))
     return seq
+
+
+def star(rng, orders, m, k=2):
+    """add k different adjacent-swap neighbours of one member of the sequence (score ties relative to any two
+    reference voters are frequent; usually not single-crossing)"""
+    base = rng.choice(orders)
+    pos = list(range(m - 1))
+    rng.shuffle(pos)
+    added = 0
+    for a in pos:
+        o = list(base)
+        o[a], o[a + 1] = o[a + 1], o[a]
+        if o not in orders:
+            orders.append(o)
+            added += 1
+            if added == k:
+                break
+    return orders
 
 
 def mults(rng, n, heavy):
@@ -179,6 +200,29 @@ def generate(tier, seed):
             tag = "walk+1"
         rng.shuffle(orders)
         out.append(mk(alts, orders, mults(rng, len(orders), True), gen=tag, medium=1))
+    # ---- stars: a sequence plus two neighbours of one member, n >= m and n < m, m up to 8
+    nstar = 500 if quick else 5000
+    for i in range(nstar):
+        m = rng.randint(4, 8)
+        alts = list(range(1, m + 1))
+        n = rng.randint(2, 12)
+        orders = star(rng, swap_walk(rng, alts, n), m, 2 if i % 3 else 3)
+        if i % 2:
+            rng.shuffle(orders)
+        elif i % 4 == 0:
+            orders = orders[::-1]          # the two tied neighbours become the reference voters v1, v2
+        out.append(mk(alts, orders, mults(rng, len(orders), i % 2 == 0), gen="star"))
+    # ---- m = 5: all sets of <= 2 orders, sampled sets of 3..7 orders
+    alts5 = [1, 2, 3, 4, 5]
+    P5 = [list(p) for p in itertools.permutations(alts5)]
+    for k in (1, 2):
+        for sub in itertools.combinations(P5, k):
+            out.append(mk(alts5, sub, exh=1))
+            if k == 2:
+                out.append(mk(alts5, sub[::-1], exh=1, storage="reversed"))
+    for _ in range(1500 if quick else 20000):
+        sub = rng.sample(P5, rng.randint(3, 7))
+        out.append(mk(alts5, sub, gen="random"))
     # ---- large planted single-crossing profiles: witness check at full size
     nlarge = 60 if quick else 500
     for i in range(nlarge):
